@@ -375,6 +375,9 @@ def _profile_q(pj):
     if kind == 'rect':
         h = F(*pj['h'])
         return lambda d: 1 if abs(d) <= h else 0
+    if kind == 'arect':   # one-sided / asymmetric rectangle lo <= d <= hi (added after seeded change C20-3)
+        lo, hi = F(*pj['lo']), F(*pj['hi'])
+        return lambda d: 1 if lo <= d <= hi else 0
     if kind == 'smoothed0':
         w = F(*pj['fwhm'])
         return lambda d: 1 if abs(d * 2 / w) <= 1 else 0
@@ -394,6 +397,9 @@ def _profile_impl(pj):
     if kind == 'rect':
         h = float(F(*pj['h']))
         return lambda x: (x.abs() <= h).float()
+    if kind == 'arect':
+        lo, hi = float(F(*pj['lo'])), float(F(*pj['hi']))
+        return lambda x: ((x >= lo) & (x <= hi)).float()
     if kind == 'smoothed0':
         return SliceSmoothedRectangular(float(F(*pj['fwhm'])), 0.0)
     if kind == 'gauss':
@@ -659,6 +665,9 @@ def gen_axis(rng, tier):
                   'prof': {'kind': 'rect', 'h': [3, 1]}, 'seed': 1})
     cases.append({'shape': [9, 9, 9], 'cls': 'perm_exact', 'M': _mat_json(PERM_EXACT[5]), 'shift': [0, 1],
                   'prof': {'kind': 'rect', 'h': [7, 2]}, 'seed': 2})
+    # a profile reaching further to the negative side: the whole support has to be covered
+    cases.append({'shape': [11, 4, 4], 'cls': 'identity', 'M': _mat_json([[1, 0, 0], [0, 1, 0], [0, 0, 1]]), 'shift': [0, 1],
+                  'prof': {'kind': 'arect', 'lo': [-7, 2], 'hi': [1, 2]}, 'seed': 3})
     n = 24 if tier == 'quick' else 400
     for i in range(n):
         cls = ['identity', 'perm_exact', 'perm_exact', 'perm_inexact'][i % 4]
@@ -669,8 +678,12 @@ def gen_axis(rng, tier):
             shape = _rand_shape(rng, cubic=True) if rng.random() < 0.6 else rng.choice([[5, 3, 7], [7, 5, 3], [3, 5, 5], [4, 6, 2], [9, 9, 9], [8, 8, 8]])
         shift = rng.choice(SHIFTS_INT + SHIFTS_HALF) if cls != 'perm_inexact' else rng.choice(SHIFTS_INT)
         r = rng.random()
-        if r < 0.6:
+        if r < 0.45:
             prof = {'kind': 'rect', 'h': [rng.randint(1, 8), 2]}
+        elif r < 0.6 and cls != 'perm_inexact':
+            a, b = rng.randint(1, 2), rng.randint(5, 8)   # reaches much further to one side of the slice
+            lo, hi = (-b, a) if rng.random() < 0.6 else (-a, b)
+            prof = {'kind': 'arect', 'lo': [lo, 2], 'hi': [hi, 2]}
         elif r < 0.75:
             prof = {'kind': 'smoothed0', 'fwhm': [rng.randint(1, 8), 1]}
         elif r < 0.9:
@@ -722,7 +735,7 @@ def _axis_reference(c):
     normal = matvec(M, [F(1), F(0), F(0)])       # +-e_a
     a = [i for i in range(3) if normal[i] != 0][0]
     sgn = normal[a]
-    exact = c['prof']['kind'] in ('rect', 'smoothed0')
+    exact = c['prof']['kind'] in ('rect', 'smoothed0', 'arect')
     wmax = twin_find_width(mx, prof)
     refs = []
     for r in range(mx):
@@ -760,7 +773,7 @@ def oracle_axis(c, o):
         return f'valid configuration rejected: {o["raises"]} {o.get("msg")}'
     refs = _axis_reference(c)
     vols = _analytic_volumes(c['shape'], c['seed'])
-    exact = c['prof']['kind'] in ('rect', 'smoothed0')
+    exact = c['prof']['kind'] in ('rect', 'smoothed0', 'arect')
     tol = 2e-5 if exact else 4e-2     # Gaussian tails beyond the 1 % / 99 % points are clipped by design
     decided = 0
     for name, v in vols.items():
